@@ -47,7 +47,10 @@ def dec(j):
             for p in j['q'].split('.'): o = getattr(o, p)
             return o
         if t == 'stub':
-            o = _Stub(j['kind'], j['id']); memo[j['id']] = o; return o
+            o = _Stub(j['kind'], j['id']); memo[j['id']] = o
+            o._returns = {k: dec(v) for k, v in j.get('returns', {}).items()}
+            o._raises = {k: dec(v) for k, v in j.get('raises', {}).items()}
+            return o
         if t == 'deque':
             import collections
             d = collections.deque(); memo[j['id']] = d; d.extend(dec(x) for x in j['v']); return d
@@ -66,7 +69,17 @@ def dec(j):
 DEV = []
 CLK = []
 class _Stub:
-    def __init__(self, kind, sid): self._kind, self._sid = kind, sid
+    def __init__(self, kind, sid): self._kind, self._sid = kind, sid; self._returns = {}; self._raises = {}
+    def __getattr__(self, name):
+        if name.startswith('__'): raise AttributeError(name)
+        if name in self.__dict__.get('_raises', {}):
+            exc = self._raises[name]
+            def f(*a, **k): raise exc('replay fault')
+            return f
+        if name in self.__dict__.get('_returns', {}):
+            val = self._returns[name]
+            return lambda *a, **k: val
+        raise AttributeError(name)
     # device
     def set_color(self, color, duration, rapid=False): DEV.append((self, 'set_color', color, duration))
     def set_power(self, power, duration, rapid=False): DEV.append((self, 'set_power', power, duration))
@@ -145,6 +158,15 @@ json.dump(out, open(sys.argv[3], 'w'))
 '''
 
 
+def atom_str(v):
+    """order-preserving native string for an atom (atoms are names; modelled as integers)"""
+    return 'a%08d' % (int(v) + 50000000)
+
+
+def atom_int(s):
+    return int(s[1:]) - 50000000
+
+
 class ConcreteBuilder:
     """Builder whose symbols are the concrete values of a solver model."""
 
@@ -164,6 +186,8 @@ class ConcreteBuilder:
             v = {'int': 0, 'atom': 0, 'real': 0.0, 'bool': False, 'str': ''}[kind]
         if kind == 'real':
             v = float(v)
+        if kind == 'atom':
+            v = atom_str(v)
         self.inputs[name] = v
         return v
 
@@ -173,6 +197,8 @@ class ConcreteBuilder:
         n = self.model.get(name + '_len')
         if isinstance(n, int):
             items = (items + [0] * n)[:n]
+        if ek == 'atom':
+            items = [atom_str(x) for x in items]
         l = PyList(items, cls)
         self.inputs[name] = l
         return l
@@ -224,7 +250,12 @@ def encode(I, v, memo):
         if nat is None:
             raise NotEncodable('external stub %s' % v.name)
         memo.setdefault('__stubs__', {})[memo[id(v)]] = v
-        return {'t': 'stub', 'kind': nat['kind'], 'id': memo[id(v)]}
+        j = {'t': 'stub', 'kind': nat['kind'], 'id': memo[id(v)]}
+        if nat.get('returns'):
+            j['returns'] = {k: encode(I, x() if callable(x) else x, memo) for k, x in nat['returns'].items()}
+        if nat.get('raises'):
+            j['raises'] = {k: encode(I, x, memo) for k, x in nat['raises'].items()}
+        return j
     if isinstance(v, PyList) and v.is_deque:
         return {'t': 'deque', 'id': memo[id(v)], 'v': [encode(I, x, memo) for x in v.items]}
     if isinstance(v, PyList):
@@ -398,6 +429,18 @@ def native_replay(pid, contract, ob, repo):
         penv = Env(env_vars, None, fn.module.ns, None)
         for dname, dtext in contract.defines_:
             penv.vars[dname] = I.eval_spec_value(dtext, penv)
+        if 'ghost_bisect' in clause:
+            # the clause names an existential witness supplied by ghost state that a native run does not have:
+            # the clause holds natively iff it holds for some candidate witness
+            vals = []
+            for w in range(-1, 66):
+                I.ghost['bisect'] = w
+                try:
+                    vals.append(_decide(I.eval_spec(clause, penv)))
+                except Exception:
+                    vals.append(None)
+            verdict['value'] = True if any(v is True for v in vals) else (False if all(v is False for v in vals) else None)
+            return 'ok'
         t = I.eval_spec(clause, penv)
         verdict['value'] = t
         return 'ok'
@@ -422,6 +465,20 @@ def native_replay(pid, contract, ob, repo):
     info['clause_value_on_real_result'] = val
     info['reproduced'] = (val is False)
     return info
+
+
+def _decide(val):
+    import z3
+    if isinstance(val, bool):
+        return val
+    val = z3.simplify(val)
+    if z3.is_true(val) or z3.is_false(val):
+        return z3.is_true(val)
+    sv = z3.Solver()
+    sv.set('timeout', 5000)
+    sv.add(z3.Not(val))
+    r = sv.check()
+    return True if r == z3.unsat else False if r == z3.sat else None
 
 
 def _link_old(I, pre, post, seen=None):
